@@ -1,7 +1,8 @@
 (* C08 -- Parse trees are positionally faithful and lossless.  Statements only. *)
 From Coq Require Import NArith List Bool.
 From PV Require Import Spec.Cfg Model.Forest Model.Table Model.LRDriver Validators.ForestSound
-  Proofs.ForestProofs Proofs.ForestSoundProofs Proofs.LRSpanProofs Proofs.LRTraceProofs.
+  Proofs.ForestProofs Proofs.ForestSoundProofs Proofs.LRSpanProofs Proofs.LRTraceProofs
+  Proofs.LRLosslessProofs.
 Import ListNotations.
 Local Open Scope N_scope.
 
@@ -32,6 +33,30 @@ Theorem C08_lr_lossless :
 Proof. exact lr_trace_tiles. Qed.
 Print Assumptions C08_lr_lossless.
 
+(* LR, losslessness at the level of STRINGS: for every input text s (over any alphabet), when
+   each token's layout_content is s[its layout span] and its value is s[start:end] (what the
+   check compares on every generated case), concatenating over the shifted tokens from left to
+   right layout_content followed by value gives exactly s[pos0 : end of the last token] -- the
+   input up to trailing layout; and the pieces are in input order without overlap. *)
+Theorem C08_lr_lossless_strings :
+  forall (A : Type) (s : list A) g tb skipws next_token stop_id pos0 fuel t rp lay tr,
+    (forall p q, skipws p = Some q -> p <= q) ->
+    lr_parse g tb skipws next_token stop_id true false fuel pos0 = LROk t rp lay tr ->
+    concat (map (entry_text s) tr) = slice s pos0 (last_end pos0 tr) /\
+    Forall (fun x => pos0 <= fst (te_lay x) /\ fst (te_lay x) <= snd (te_lay x) /\
+                     snd (te_lay x) = te_s x /\ te_s x <= te_e x /\
+                     te_e x <= last_end pos0 tr) tr.
+Proof.
+  intros A s g tb skipws next_token stop_id pos0 fuel t rp lay tr Hm H.
+  pose proof (lr_trace_tiles g tb skipws next_token stop_id pos0 fuel t rp lay tr H) as Ht.
+  split; [exact (tiles_text skipws s Hm tr pos0 Ht)|exact (tiles_ordered skipws Hm tr pos0 Ht)].
+Qed.
+Print Assumptions C08_lr_lossless_strings.
+
+(* the slices are Python's: "ab  cd"[2:4] = "  " *)
+Example C08_slice_example : slice [1;2;3;4;5;6] 2 4 = [3;4] /\ slice [1;2;3] 1 7 = [2;3].
+Proof. split; reflexivity. Qed.
+
 (* well-formed spans give the statement of the property: every node of the tree has
    start <= end and lies inside the root's span (applied to a subtree: inside its parent) *)
 Theorem C08_spans_nested : forall t, spans_ok t ->
@@ -60,10 +85,10 @@ Proof.
 Qed.
 Print Assumptions C08_forest_spans.
 
-(* NOT PROVED (checked on every generated case instead): that the STRINGS layout_content and
-   value are input[layout span] and input[start:end] (the model carries positions only), the
-   GLR counterpart of C08_lr_lossless, and that the positions passed to actions / obj equal
-   the node's. *)
+(* NOT PROVED (checked on every generated case instead): that the impl's STRINGS layout_content
+   and value are input[layout span] and input[start:end] (the model carries positions only;
+   C08_lr_lossless_strings then gives the concatenation), the GLR counterpart of
+   C08_lr_lossless, and that the positions passed to actions / obj equal the node's. *)
 
 Definition t_ex : tree := TNode 1 0 3 [TNode 2 0 0 []; TLeaf 0 2 3].
 Example C08_nonvacuous : spans_ok t_ex /\ In (TNode 2 0 0 []) (subtrees t_ex).
